@@ -138,9 +138,11 @@ func C15(tier string) int {
 		rs := []int{8, 16, 32, 64}[ti%4]
 		cfgs = append(cfgs, Config{Name: fmt.Sprintf("SimDrive.Init rules on objects %v Rsize=%d", tp, rs), Func: "zzC15Drive", Harness: &hd,
 			Args: []Arg{S(strings.Join(tp, ",")), I(rs)}, Setup: c15DriveHooks})
-		kindSets := [][]string{{"0", "0", "1"}, {"0", "1", "0"}, {"1", "0", "2"}, {"2", "2", "3"}, {"2", "3", "0"}, {"0", "2", "4"}, {"3", "1", "1"}, {"4", "0", "0"}, {"1", "1", "3"}, {"3", "3", "2"}}
-		for v := 0; v < 2; v++ {
-			ks := kindSets[(2*ti+v)%len(kindSets)][:len(tp)]
+		// kind = 2*timing + side (timing: 0 absolute, 1 periodic, 2 on exit, 3 on valid; side: 0 get, 1 show); 8 = another rule
+		kindSets := [][]string{{"0", "0", "2"}, {"0", "2", "0"}, {"2", "0", "1"}, {"1", "1", "3"}, {"1", "3", "0"}, {"0", "1", "8"}, {"3", "2", "2"}, {"8", "0", "0"},
+			{"2", "2", "3"}, {"3", "3", "1"}, {"1", "5", "5"}, {"5", "1", "4"}, {"4", "4", "0"}, {"0", "4", "6"}, {"6", "6", "7"}, {"7", "3", "5"}, {"5", "7", "1"}, {"3", "5", "5"}}
+		for v := 0; v < 3; v++ {
+			ks := kindSets[(3*ti+v)%len(kindSets)][:len(tp)]
 			cfgs = append(cfgs, Config{Name: fmt.Sprintf("SimReport.Init rules on objects %v kinds %v Rsize=%d", tp, ks, rs), Func: "zzC15Report", Harness: &hd,
 				Args: []Arg{S(strings.Join(tp, ",")), S(strings.Join(ks, ",")), I(rs)}, Setup: c15DriveHooks})
 		}
@@ -154,7 +156,7 @@ func C15(tier string) int {
 			"rule validity: (Timec, Action) is one of the documented pairs; Object and Extra are ASCII strings without ':' of the enumerated lengths; event rules have Tick 0; 2-word config rules have empty Extra",
 			"tickmode 0: decimal text of a 64-bit tick is an opaque injective token (contract strconv.Atoi(strconv.Itoa(x)) == x); tickmode 1: ticks below 65536 with exact digit arithmetic through the real strconv semantics model",
 			"indices of Del/Suspend/Reactivate are >= 0 (a negative index panics today; the property does not speak about malformed indices)",
-			"part 3, SimDrive.Init only: for lists of 1-3 set/other rules on concrete objects (i0, i1, p0r0, p0r1, o0; every pair, selected or all triples) with tick, value, kind (absolute set / periodic set / another kind) and suspended flag as solver variables: for ANY tick and every object the absolute and periodic tables hold exactly the value of the last non-suspended matching rule and nothing otherwise, the injection pointer is the object's location, absolutely-set inputs are marked for valid. bondmachine.ImportNumber is stubbed (the k-th rule's text denotes the k-th value variable; literal import is C08's subject). Likewise SimReport.Init for absolute/periodic get and show rules (rule kinds concrete per configuration, two kind vectors per object tuple; ticks and suspended flags symbolic): a table names an object at a tick exactly when a non-suspended rule of that kind does; location, name and type (the first registering rule's Extra) are recorded. Event rules (on valid/recv/exit), the config rules get_all/show_all and the tick loop in cmd/bondmachine that applies the tables are not covered",
+			"part 3, SimDrive.Init only: for lists of 1-3 set/other rules on concrete objects (i0, i1, p0r0, p0r1, o0; every pair, selected or all triples) with tick, value, kind (absolute set / periodic set / another kind) and suspended flag as solver variables: for ANY tick and every object the absolute and periodic tables hold exactly the value of the last non-suspended matching rule and nothing otherwise, the injection pointer is the object's location, absolutely-set inputs are marked for valid. bondmachine.ImportNumber is stubbed (the k-th rule's text denotes the k-th value variable; literal import is C08's subject). Likewise SimReport.Init for absolute/periodic/on-exit/on-valid get and show rules (rule kinds concrete per configuration, three kind vectors per object tuple; ticks and suspended flags symbolic): an event table holds an object exactly when a non-suspended event rule names it (on valid: and it has a valid signal) and points at its registration; a table names an object at a tick exactly when a non-suspended rule of that kind does; location, name and type (the first registering rule's Extra) are recorded. On-receive rules, the config rules get_all/show_all and the tick loop in cmd/bondmachine that applies the tables are not covered",
 		},
 		Bounds: map[string]interface{}{"object_extra_lengths": lens, "forms": 14, "bookkeeping_list_lengths": bookN},
 		Rule:   "one obligation per assert/panic site per (rule form, object length, extra length, tick mode); field bytes, ticks, suspended flags and indices are solver variables",
